@@ -1,11 +1,18 @@
 import MemcVerif.Proofs.Policy
+import MemcVerif.Proofs.PolConc
 /-!
 # C14 — random eviction keeps stored bytes within the memory limit (sequential clause)
 
 For every limit (including limits below one record), every store state, every record size and **every
 victim choice** (`tape` is universally quantified; `bad = false` says the choices were ones the loop could
 make and that it ran to completion). Counter arithmetic does not wrap (`usage + len < 2^64`).
-The concurrent clause is decided by schedule enumeration (see DESIGN.md, C14) and a recorded finding.
+
+The concurrent clause is stated over the micro-step model `Model/PolConc` (every atomic operation of
+`RandomPolicy::set`/`delete` is one step; a schedule names the thread that moves and the victim `remove_if`
+removed). As stated in the property it is FALSE for the code: the empty-store reset subtracts a stale local
+copy (`C14_racy_reset_breaks_bound`, a three-store witness; recorded finding K-C14-reset-race). It is proved
+for every schedule in which every reset is quiet — no other call in flight, counter unmoved since the local
+copy was taken (`C14_concurrent_partial`), for any number of threads, programs and steps.
 -/
 namespace Memc
 
@@ -191,6 +198,63 @@ theorem C14_victim_not_pending (p : Policy) (now : Nat) (k : Key) (r : Record) (
 /-- a limit below one record: the store is emptied and the single record is kept -/
 example : ((Policy.init 10).set 0 [1] (Record.new [1,2,3] 0 0 0)).1.inner.mem.bytes = 27 := by decide
 
+/-! ## the concurrent clause -/
+
+/-- while no reset is racy: at every moment of every schedule the counter covers what is stored plus what is
+    in flight (so nothing stored is ever unaccounted), whatever the threads, programs and victims -/
+theorem C14_concurrent_cover (limit B now : Nat) (programs : List (List PCall)) (sched : List (Nat × Option Key))
+    (hb : ∀ p ∈ programs, ∀ c ∈ p, c.Bounded B)
+    (hr : ((PSys.init limit programs).run now sched).racy = false)
+    (ho : ((PSys.init limit programs).run now sched).overflow = false) :
+    ((PSys.init limit programs).run now sched).inner.mem.bytes + pendSum ((PSys.init limit programs).run now sched).threads
+      ≤ ((PSys.init limit programs).run now sched).usage :=
+  (run_inv B _ now sched (init_inv B limit programs hb) hr ho).1.cover
+
+/-- **C14, concurrent clause (partial: quiet resets)**: any number of threads running any programs of stores,
+    deletes, reads and flushes of records of at most `B` bytes, under every interleaving of their atomic
+    operations and every victim choice: whenever no call is in progress, the bytes stored are at most
+    `max limit B` (≤ limit + one record), provided no reset raced with another call. -/
+theorem C14_concurrent_partial (limit B now : Nat) (programs : List (List PCall)) (sched : List (Nat × Option Key))
+    (hb : ∀ p ∈ programs, ∀ c ∈ p, c.Bounded B)
+    (hq : ((PSys.init limit programs).run now sched).quiescent = true)
+    (hr : ((PSys.init limit programs).run now sched).racy = false)
+    (ho : ((PSys.init limit programs).run now sched).overflow = false) :
+    ((PSys.init limit programs).run now sched).inner.mem.bytes ≤ max limit B := by
+  obtain ⟨hinv, hlim⟩ := run_inv B _ now sched (init_inv B limit programs hb) hr ho
+  obtain ⟨h1, h2⟩ := hinv.at_rest hq
+  rw [hlim] at h2
+  exact Nat.le_trans h1 h2
+
+/-- the same from any state in which the invariant holds (e.g. after any earlier history) -/
+theorem C14_concurrent_from (B : Nat) (s : PSys) (now : Nat) (sched : List (Nat × Option Key)) (h : PInv B s)
+    (hq : (s.run now sched).quiescent = true) (hr : (s.run now sched).racy = false)
+    (ho : (s.run now sched).overflow = false) : (s.run now sched).inner.mem.bytes ≤ max s.limit B := by
+  obtain ⟨hinv, hlim⟩ := run_inv B s now sched h hr ho
+  obtain ⟨h1, h2⟩ := hinv.at_rest hq
+  rw [hlim] at h2
+  exact Nat.le_trans h1 h2
+
+def exRec (n : Nat) : Record := Record.new (List.replicate n 0) 0 0 0
+
+/-- the witness schedule: two concurrent stores of 50 bytes into an empty store under a limit of 80, the second
+    one finds the store empty while the first is still in flight and resets the counter; then one more store -/
+def exRace : PSys :=
+  (PSys.init 80 [[.set [1] (exRec 26)], [.set [2] (exRec 26)], [.set [3] (exRec 1)]]).run 0
+    [(0, none), (1, none), (1, none), (1, none), (1, none), (0, none), (2, none), (2, none)]
+
+/-- **the concurrent clause is FALSE as stated** (finding K-C14-reset-race): at rest, after a store of 25 bytes
+    made with no other call in progress, 125 bytes are stored under a limit of 80 (> limit + the record just
+    written), and the counter says 75 -/
+theorem C14_racy_reset_breaks_bound :
+    exRace.quiescent = true ∧ exRace.inner.mem.bytes = 125 ∧ exRace.usage = 75 ∧ exRace.limit + (exRec 1).len < 125 ∧
+    exRace.racy = true ∧ exRace.overflow = false := by decide
+
+/-- the premises of `C14_concurrent_partial` are met by a concurrent schedule with evictions -/
+example :
+    let s := (PSys.init 80 [[.set [1] (exRec 26)], [.set [2] (exRec 26), .delete [1] 0], [.get [2]]]).run 0
+      [(0, none), (1, none), (0, none), (1, none), (1, some [1]), (2, none), (1, none), (1, none), (1, none), (1, none)]
+    s.quiescent = true ∧ s.racy = false ∧ s.overflow = false ∧ s.inner.mem.bytes = 50 := by decide
+
 end Memc
 
 #print axioms Memc.evictLoop_spec
@@ -200,3 +264,7 @@ end Memc
 #print axioms Memc.C14_covers_flush
 #print axioms Memc.C14_terminates
 #print axioms Memc.C14_victim_not_pending
+#print axioms Memc.C14_concurrent_cover
+#print axioms Memc.C14_concurrent_partial
+#print axioms Memc.C14_concurrent_from
+#print axioms Memc.C14_racy_reset_breaks_bound
